@@ -183,10 +183,11 @@ Proof.
 Qed.
 
 (* the value a non-free node must have *)
-Definition node_val (v : val) (i : ninfo) : bool := match n_ty i with C0 => false | C1 => true | t => gate_val t v (n_fi i) end.
-Definition gc_type (t : gtype) : Prop := t ∈ gate_types ∨ t = C0 ∨ t = C1.
+(* xx: the value shared by all x constants *)
+Definition node_val (v : val) (xx : bool) (i : ninfo) : bool := match n_ty i with C0 => false | C1 => true | CX => xx | t => gate_val t v (n_fi i) end.
+Definition gc_type (t : gtype) : Prop := t ∈ gate_types ∨ t = C0 ∨ t = C1 ∨ t = CX.
 Definition stmt_spec (n : string) (i : ninfo) (s : item) : Prop :=
-  item_shape s ∧ (∃ d, item_drivers s = [(n, d)] ∧ ∀ v xx, sem_driver v xx d = node_val v i) ∧
+  item_shape s ∧ (∃ d, item_drivers s = [(n, d)] ∧ ∀ v xx, sem_driver v xx d = node_val v xx i) ∧
   (∀ y, y ∈ item_nets s → y = n ∨ y ∈ n_fi i) ∧ item_ins s = [] ∧ item_outs s = [].
 
 Lemma gate_stmt_spec g beh j n i fi : gc_type (n_ty i) →
@@ -215,9 +216,9 @@ Proof.
         rewrite <- Hfs. apply elem_of_list_to_set. apply elem_of_cons in Hy as [->|Hy]; [by left|right].
         change (y ∈ (cid <$> r) ≫= ids_cond) in Hy.
         apply elem_of_list_bind in Hy as (e & Hy & He). apply elem_of_list_fmap in He as (z & -> & Hz). simpl in Hy. by apply elem_of_list_singleton in Hy as ->.
-  - assert (Hct : n_ty i ∈ const_types) by (unfold const_types; destruct Hc as [-> | ->]; set_solver).
+  - assert (Hct : n_ty i ∈ const_types) by (unfold const_types; destruct Hc as [-> |[-> | ->]]; set_solver).
     rewrite bool_decide_eq_true_2 by done. eexists. split; [done|]. split; [done|]. split; [|split; [|done]].
-    + exists (DAssign (const_expr (n_ty i))). split; [done|]. intros v xx. cbn [sem_driver]. rewrite (const_expr_sem _ v xx Hct). unfold node_val. by destruct Hc as [-> | ->].
+    + exists (DAssign (const_expr (n_ty i))). split; [done|]. intros v xx. cbn [sem_driver]. rewrite (const_expr_sem _ v xx Hct). unfold node_val. by destruct Hc as [-> |[-> | ->]].
     + intros y Hy. simpl in Hy. rewrite ?app_nil_r in Hy. apply elem_of_cons in Hy as [->|Hy]; [by left|]. by apply elem_of_nil in Hy.
 Qed.
 
@@ -227,7 +228,7 @@ Lemma stmtsb_spec g beh l : ∀ j,
      (n_ty i ∈ gate_types → x.2 ≠ [] ∧ NoDup x.2 ∧ list_to_set x.2 = n_fi i ∧ (n_ty i = Buf ∨ n_ty i = Not → length x.2 = 1))) →
   let S := stmtsb g beh j l in
   Forall item_shape S ∧ (S ≫= item_drivers).*1 = l.*1 ∧
-  (∀ n d, (n, d) ∈ S ≫= item_drivers → ∃ i, g !! n = Some i ∧ gc_type (n_ty i) ∧ ∀ v xx, sem_driver v xx d = node_val v i) ∧
+  (∀ n d, (n, d) ∈ S ≫= item_drivers → ∃ i, g !! n = Some i ∧ gc_type (n_ty i) ∧ ∀ v xx, sem_driver v xx d = node_val v xx i) ∧
   (∀ y, y ∈ S ≫= item_nets → ∃ n i, g !! n = Some i ∧ (y = n ∨ y ∈ n_fi i)) ∧ S ≫= item_ins = [] ∧ S ≫= item_outs = [].
 Proof.
   induction l as [|x l IH]; intros j Hl; cbn zeta.
@@ -251,31 +252,43 @@ Record rte_clean (g : circuit) : Prop := mk_rte {
   re_names : ∀ n, n ∈ dom g → good_name n;
   re_closed : closed g }.
 
-Lemma node_ok_val v n i : gc_type (n_ty i) → (n_ty i ∈ gate_types → n_fi i ≠ ∅) → (node_ok v n i ↔ v n = node_val v i).
+Lemma node_ok_val v xx n i : gc_type (n_ty i) → (n_ty i ∈ gate_types → n_fi i ≠ ∅) → (node_ok v n i ∧ (n_ty i = CX → v n = xx) ↔ v n = node_val v xx i).
 Proof.
-  intros Hgc Hne. unfold node_ok, is_free, node_val. destruct Hgc as [Ht|[E|E]]; [|rewrite E; simpl; done|rewrite E; simpl; done].
+  intros Hgc Hne. unfold node_ok, is_free, node_val. destruct Hgc as [Ht|[E|[E|E]]]; [|rewrite E; simpl; naive_solver|rewrite E; simpl; naive_solver|rewrite E; simpl; naive_solver].
   specialize (Hne Ht). unfold gate_types in Ht. rewrite !elem_of_cons, elem_of_nil in Ht.
-  destruct Ht as [E|[E|[E|[E|[E|[E|[E|[E|[]]]]]]]]]; rewrite E; simpl; try done; by rewrite bool_decide_eq_false_2.
+  destruct Ht as [E|[E|[E|[E|[E|[E|[E|[E|[]]]]]]]]]; rewrite E; simpl; rewrite ?bool_decide_eq_false_2 by done; naive_solver.
 Qed.
 Lemma den_ok_2 k NN DD it : (∀ mn insts, it = IInst mn insts → is_Some (prim_of_name mn)) → item_den_ok k NN DD it → item_den_ok2 k NN DD it.
 Proof. destruct it as [| | |mn insts|]; try done. intros Hb H. destruct (Hb mn insts eq_refl) as [t Et]. unfold item_den_ok2. rewrite Et. exact H. Qed.
 
-Theorem roundtrip_equiv_bbfree C beh π m rsv bbs : rte_clean (c_g C) → c_bbs C = ∅ → write C beh π = Ok m →
+(* with several x constants: the reader shares one unknown (tie_x), so the read-back circuit is equivalent to the original under the
+   valuations that give all x constants of the original the same value *)
+Definition x_uniform (c : circuit) (v : val) : Prop := ∃ x : bool, ∀ n, n ∈ of_type c (is_ty CX) → v n = x.
+Definition equiv_on_x (S : gset string) (c c' : circuit) : Prop :=
+  (∀ v', consistent c' v' → ∃ v, consistent c v ∧ x_uniform c v ∧ agrees S v v') ∧
+  (∀ v, consistent c v → x_uniform c v → ∃ w, consistent c' w ∧ agrees S w v).
+Lemma equiv_on_x_nox S c c' : no_x c → equiv_on_x S c c' → equiv_on S c c'.
+Proof.
+  intros Hx [H1 H2]. split.
+  - intros v' Hv'. destruct (H1 v' Hv') as (v & ? & _ & ?). eauto.
+  - intros v Hv. apply H2; [done|]. exists false. intros n Hn. unfold no_x in Hx. rewrite Hx in Hn. by apply elem_of_empty in Hn.
+Qed.
+Theorem roundtrip_equiv_bbfree_x C beh π m rsv bbs : rte_clean (c_g C) → c_bbs C = ∅ → write C beh π = Ok m →
   (list_to_set (module_ids m) : gset string) ⊆ rsv →
   ∃ C', read rsv bbs m = Ok C' ∧ c_name C' = c_name C ∧ inputs (c_g C') = inputs (c_g C) ∧ outputs (c_g C') = outputs (c_g C) ∧
-        c_bbs C' = ∅ ∧ equiv_on (dom (c_g C)) (c_g C) (c_g C').
+        c_bbs C' = ∅ ∧ equiv_on_x (dom (c_g C)) (c_g C) (c_g C').
 Proof.
   intros [Hty Hzero Hgate Hsingle Hnames Hcl] Hb Hw Hids.
   destruct (write_invb C beh π m Hw Hb) as (Ni & Ei & No & Eo & Nn & En & Ef & Ff & Em).
   set (g := c_g C) in *. set (S := stmtsb g beh 0 (o_fi π)) in *.
   assert (Hbo : of_type g (is_ty BbOut) = ∅).
   { apply set_eq. intros x. split; [|set_solver]. intros (i & Hi & Ht)%elem_of_of_type. unfold is_ty in Ht. apply bool_decide_eq_true in Ht.
-    destruct (Hty x i Hi) as [E|[E|[E|E]]]; rewrite <- Ht in E; try done. unfold gate_types in E. set_solver. }
+    destruct (Hty x i Hi) as [E|[E|[E|[E|E]]]]; rewrite <- Ht in E; try done. unfold gate_types in E. set_solver. }
   assert (Hgc : ∀ x, x ∈ o_nodes π ↔ ∃ i, g !! x = Some i ∧ gc_type (n_ty i)).
   { intros x. rewrite <- (elem_of_list_to_set (C:=gset string)), En, elem_of_of_type. split.
     - intros (i & Hi & Ht). exists i. split; [done|]. destruct (Hty x i Hi) as [E|?]; [|done]. rewrite E in Ht. done.
     - intros (i & Hi & [Ht|Hc]); exists i; (split; [done|]); [by rewrite bool_decide_eq_true_2|].
-      rewrite (bool_decide_eq_true_2 (n_ty i ∈ const_types)); [by rewrite orb_true_r|]. unfold const_types. destruct Hc as [-> | ->]; set_solver. }
+      rewrite (bool_decide_eq_true_2 (n_ty i ∈ const_types)); [by rewrite orb_true_r|]. unfold const_types. destruct Hc as [-> |[-> | ->]]; set_solver. }
   assert (Hl : ∀ x : string * list string, x ∈ o_fi π → ∃ i, g !! x.1 = Some i ∧ gc_type (n_ty i) ∧
      (n_ty i ∈ gate_types → x.2 ≠ [] ∧ NoDup x.2 ∧ list_to_set x.2 = n_fi i ∧ (n_ty i = Buf ∨ n_ty i = Not → length x.2 = 1))).
   { intros x Hx. assert (Hx1 : x.1 ∈ o_nodes π) by (rewrite <- Ef; apply elem_of_list_fmap; eauto).
@@ -312,7 +325,7 @@ Proof.
   assert (Hdin : ∀ n, n ∈ (drivers m).*1 → n ∉ decl_inputs m).
   { intros n Hn Hin. rewrite Edn in Hn. rewrite Edi in Hin. apply Hgc in Hn as (i & Hi & Hg).
     apply (elem_of_list_to_set (C:=gset string)) in Hin. rewrite Ei in Hin. apply elem_of_inputs in Hin as (i' & Hi' & Ht'). assert (i' = i) as -> by congruence.
-    rewrite Ht' in Hg. destruct Hg as [Hg|[?|?]]; [|done|done]. unfold gate_types in Hg. set_solver. }
+    rewrite Ht' in Hg. destruct Hg as [Hg|[?|[?|?]]]; [|done|done|done]. unfold gate_types in Hg. set_solver. }
   assert (Hbf : ∀ mn insts, IInst mn insts ∈ m_items m → is_Some (prim_of_name mn)).
   { intros mn insts Hin. rewrite Forall_forall in Hshape. destruct (Hshape _ Hin) as (t & Et & _). eauto. }
   pose proof (NN_rsv rsv m Hids) as HNN.
@@ -336,18 +349,24 @@ Proof.
   assert (Exd : xdrivers bbs m = drivers m) by (by apply xdrivers_bbfree).
   assert (Hden2 : Forall (item_den_ok2 (init_ctx rsv bbs).1 (list_to_set (module_nets m)) (list_to_set (xdrivers bbs m).*1)) (m_items m)).
   { rewrite Exd. apply Forall_forall. intros it Hit. apply den_ok_2; [intros mn insts ->; by eapply Hbf|]. rewrite Forall_forall in Hden. by apply Hden. }
-  assert (Hdrv : ∀ n i, g !! n = Some i → gc_type (n_ty i) → ∃ d, (n, d) ∈ drivers m ∧ ∀ v xx, sem_driver v xx d = node_val v i).
+  assert (Hdrv : ∀ n i, g !! n = Some i → gc_type (n_ty i) → ∃ d, (n, d) ∈ drivers m ∧ ∀ v xx, sem_driver v xx d = node_val v xx i).
   { intros n i Hi Hg. assert (Hn : n ∈ (drivers m).*1) by (rewrite Edn; apply Hgc; eauto).
     apply elem_of_list_fmap in Hn as ([n' d] & -> & Hin). exists d. split; [done|]. rewrite Edr in Hin. destruct (F3 _ _ Hin) as (i' & Hi' & _ & Hsem).
     simpl in *. assert (i' = i) as -> by congruence. done. }
   split.
   - intros v' Hv'. assert (Hnd2 : NoDup (xdrivers bbs m).*1) by (by rewrite Exd). pose proof (read_sound_items2 rsv bbs m C' _ HNN Hden2 Hnd2 HC' v' Hv') as Hsat.
-    exists v'. split; [|done]. intros n i Hi. destruct (Hty n i Hi) as [E|Hg]; [unfold node_ok, is_free; by rewrite E|].
-    apply node_ok_val; [done|by apply (Hgate n i Hi)|]. destruct (Hdrv n i Hi Hg) as (d & Hd & Hsem). rewrite (Hsat n d Hd). apply Hsem.
-  - intros v Hv.
-    assert (Hnd2 : NoDup (xdrivers bbs m).*1) by (by rewrite Exd). destruct (read_conv_items rsv bbs m C' _ HNN Hden2 Hconv Hnd2 HC' v false) as (w & Cw & Aw).
+    set (X := v' (k_tx (init_ctx rsv bbs).1)) in *.
+    assert (Hnv : ∀ n i, g !! n = Some i → gc_type (n_ty i) → v' n = node_val v' X i).
+    { intros n i Hi Hg. destruct (Hdrv n i Hi Hg) as (d & Hd & Hsem). rewrite (Hsat n d Hd). apply Hsem. }
+    exists v'. split; [|split; [|done]].
+    + intros n i Hi. destruct (Hty n i Hi) as [E|Hg]; [unfold node_ok, is_free; by rewrite E|].
+      apply (proj2 (node_ok_val v' X n i Hg (Hgate n i Hi))). by apply Hnv.
+    + exists X. intros n (i & Hi & Ht)%elem_of_of_type. unfold is_ty in Ht. apply bool_decide_eq_true in Ht.
+      assert (Hg : gc_type (n_ty i)) by (rewrite <- Ht; unfold gc_type; auto). rewrite (Hnv n i Hi Hg). unfold node_val. by rewrite <- Ht.
+  - intros v Hv [X HX].
+    assert (Hnd2 : NoDup (xdrivers bbs m).*1) by (by rewrite Exd). destruct (read_conv_items rsv bbs m C' _ HNN Hden2 Hconv Hnd2 HC' v X) as (w & Cw & Aw).
     { intros n d Hin. rewrite Edr in Hin. destruct (F3 _ _ Hin) as (i & Hi & Hg & Hsem). rewrite Hsem.
-      apply node_ok_val; [done|by apply (Hgate n i Hi)|by apply Hv]. }
+      apply (proj1 (node_ok_val v X n i Hg (Hgate n i Hi))). split; [by apply Hv|]. intros Ecx. apply HX. apply elem_of_of_type. exists i. split; [done|]. rewrite Ecx. done. }
     exists w. split; [done|]. intros n Hn. apply Aw. apply elem_of_list_to_set.
     apply elem_of_dom in Hn as [i Hi]. unfold module_nets. destruct (Hty n i Hi) as [E|Hg].
     + apply elem_of_app. left. rewrite Em. cbn [m_ports]. apply elem_of_app. left.
@@ -355,17 +374,40 @@ Proof.
     + apply elem_of_app. right. rewrite Eitems. apply elem_of_list_bind. exists (IWire [n]). split; [simpl; by left|].
       apply elem_of_app. right. apply elem_of_app. right. apply elem_of_app. left. apply elem_of_list_fmap. exists n. split; [done|]. apply Hgc. eauto.
 Qed.
+Lemma equiv_on_x_mono (S S' : gset string) c c' : S' ⊆ S → equiv_on_x S c c' → equiv_on_x S' c c'.
+Proof.
+  intros Hs [H1 H2]. split.
+  - intros v Hv. destruct (H1 v Hv) as (w & Cw & Xw & Aw). exists w. split; [done|]. split; [done|]. intros n Hn. apply Aw. by apply Hs.
+  - intros v Hv Xv. destruct (H2 v Hv Xv) as (w & Cw & Aw). exists w. split; [done|]. intros n Hn. apply Aw. by apply Hs.
+Qed.
+Corollary roundtrip_equiv_bbfree_x_outputs C beh π m rsv bbs : rte_clean (c_g C) → c_bbs C = ∅ → write C beh π = Ok m →
+  (list_to_set (module_ids m) : gset string) ⊆ rsv →
+  ∃ C', read rsv bbs m = Ok C' ∧ c_name C' = c_name C ∧ inputs (c_g C') = inputs (c_g C) ∧ outputs (c_g C') = outputs (c_g C) ∧
+        c_bbs C' = ∅ ∧ equiv_on_x (outputs (c_g C)) (c_g C) (c_g C').
+Proof.
+  intros Hc Hb Hw Hids. destruct (roundtrip_equiv_bbfree_x C beh π m rsv bbs Hc Hb Hw Hids) as (C' & H1 & H2 & H3 & H4 & H5 & H6).
+  exists C'. repeat (split; [done|]). eapply equiv_on_x_mono; [|exact H6]. intros n (i & Hi & _)%elem_of_outputs. apply elem_of_dom; eauto.
+Qed.
+(* without x constants: plain equivalence *)
+Theorem roundtrip_equiv_bbfree C beh π m rsv bbs : rte_clean (c_g C) → no_x (c_g C) → c_bbs C = ∅ → write C beh π = Ok m →
+  (list_to_set (module_ids m) : gset string) ⊆ rsv →
+  ∃ C', read rsv bbs m = Ok C' ∧ c_name C' = c_name C ∧ inputs (c_g C') = inputs (c_g C) ∧ outputs (c_g C') = outputs (c_g C) ∧
+        c_bbs C' = ∅ ∧ equiv_on (dom (c_g C)) (c_g C) (c_g C').
+Proof.
+  intros Hc Hx Hb Hw Hids. destruct (roundtrip_equiv_bbfree_x C beh π m rsv bbs Hc Hb Hw Hids) as (C' & H1 & H2 & H3 & H4 & H5 & H6).
+  exists C'. repeat (split; [done|]). by apply equiv_on_x_nox.
+Qed.
 
 Lemma equiv_on_mono (S S' : gset string) c c' : S' ⊆ S → equiv_on S c c' → equiv_on S' c c'.
 Proof.
   intros Hs [H1 H2]. split; intros v Hv; [destruct (H1 v Hv) as (w & Cw & Aw)|destruct (H2 v Hv) as (w & Cw & Aw)]; exists w; (split; [done|]); intros n Hn; apply Aw; by apply Hs.
 Qed.
-Corollary roundtrip_equiv_bbfree_outputs C beh π m rsv bbs : rte_clean (c_g C) → c_bbs C = ∅ → write C beh π = Ok m →
+Corollary roundtrip_equiv_bbfree_outputs C beh π m rsv bbs : rte_clean (c_g C) → no_x (c_g C) → c_bbs C = ∅ → write C beh π = Ok m →
   (list_to_set (module_ids m) : gset string) ⊆ rsv →
   ∃ C', read rsv bbs m = Ok C' ∧ c_name C' = c_name C ∧ inputs (c_g C') = inputs (c_g C) ∧ outputs (c_g C') = outputs (c_g C) ∧
         c_bbs C' = ∅ ∧ equiv_on (outputs (c_g C)) (c_g C) (c_g C').
 Proof.
-  intros Hc Hb Hw Hids. destruct (roundtrip_equiv_bbfree C beh π m rsv bbs Hc Hb Hw Hids) as (C' & H1 & H2 & H3 & H4 & H5 & H6).
+  intros Hc Hx Hb Hw Hids. destruct (roundtrip_equiv_bbfree C beh π m rsv bbs Hc Hx Hb Hw Hids) as (C' & H1 & H2 & H3 & H4 & H5 & H6).
   exists C'. repeat (split; [done|]). eapply equiv_on_mono; [|exact H6]. intros n (i & Hi & _)%elem_of_outputs. apply elem_of_dom; eauto.
 Qed.
 
@@ -373,10 +415,10 @@ Qed.
 Lemma lint_clean_rte C f : Lint.lint C f = Ok () →
   (∀ n i, c_g C !! n = Some i → n_ty i ∈ gate_types → n_fi i ≠ ∅) →
   (∀ n, n ∈ dom (c_g C) → n ≠ "" ∧ starts_digit n = false) → closed (c_g C) →
-  of_type (c_g C) (is_ty CX) = ∅ → of_type (c_g C) (λ t, is_ty BbIn t || is_ty BbOut t) = ∅ →
+  of_type (c_g C) (λ t, is_ty BbIn t || is_ty BbOut t) = ∅ →
   rte_clean (c_g C).
 Proof.
-  intros Hl Hgate Hnames Hcl Hnc Hnp.
+  intros Hl Hgate Hnames Hcl Hnp.
   assert (Hnb : ∀ n i, c_g C !! n = Some i → Lint.node_bad Lint.gen_tables C f n i = false).
   { unfold Lint.lint, Lint.lint_with in Hl. destruct (existsb _ (map_to_list (c_g C)) || _) eqn:E; [discriminate|].
     apply orb_false_elim in E as [E _]. intros n i Hi. apply (ComposeProofs.existsb_false _ _ E (n, i)). by apply elem_of_map_to_list. }
@@ -399,15 +441,12 @@ Proof.
       + apply Nat.ltb_ge in Hy. lia. }
   assert (Hty : ∀ n i, c_g C !! n = Some i → n_ty i = Input ∨ gc_type (n_ty i)).
   { intros n i Hi. destruct (Hr n i Hi) as (Hs & _).
-    assert (H1 : n_ty i ≠ CX).
-    { intros Hc. assert (n ∈ of_type (c_g C) (is_ty CX)) by (apply elem_of_of_type; exists i; rewrite Hc; done).
-      rewrite Hnc in H. by apply elem_of_empty in H. }
     assert (H2 : n_ty i ≠ BbIn ∧ n_ty i ≠ BbOut).
     { split; intros Hc; (assert (n ∈ of_type (c_g C) (λ t, is_ty BbIn t || is_ty BbOut t)) as H by (apply elem_of_of_type; exists i; rewrite Hc; done));
         rewrite Hnp in H; by apply elem_of_empty in H. }
-    destruct H2 as [H2 H3]. unfold gc_type, gate_types. unfold Gen_types.supported_types in Hs. clear -Hs H1 H2 H3.
+    destruct H2 as [H2 H3]. unfold gc_type, gate_types. unfold Gen_types.supported_types in Hs. clear -Hs H2 H3.
     destruct (n_ty i); try done; try (by left); try (right; left; repeat (first [apply elem_of_list_here | apply elem_of_list_further]); fail);
-      try (right; right; left; done); try (right; right; right; done); exfalso; rewrite !elem_of_cons, elem_of_nil in Hs; naive_solver. }
+      try (right; right; left; done); try (right; right; right; left; done); try (right; right; right; right; done); exfalso; rewrite !elem_of_cons, elem_of_nil in Hs; naive_solver. }
   split; try done.
   - intros n i Hi Ht. destruct (Hr n i Hi) as (_ & Hz & _). apply leibniz_equiv, size_empty_iff. apply Hz. rewrite Ht. unfold Gen_lint.zero_input_types. set_solver.
   - intros n i Hi Ht. destruct (Hr n i Hi) as (_ & _ & Hs).
